@@ -30,6 +30,14 @@ STRENGTHENED = {
  ("C15","r2m3"): "two-word moduli with the top bit set (2^128 - 159, (2^64-59)(2^64-83))",
  ("C16","r2m3"): "B1 = q^k + 1 configurations for every method",
  ("C19","r2m3"): "weighted cyclic shift matrices in both orientations (Berlekamp-Massey quotients of degree >= 2)",
+ # third round (r3*), on the eight properties with a miss in round 2
+ ("C04","r3m2"): "tiny inputs (36-44 bits) and an undersized factor base variant for MPQS/SIQS",
+ ("C04","r3m3"): "a pass in the checked build profile (debug assertions, overflow checks) on inputs <= 66 bits (also caught by C03)",
+ ("C05","r3m3"): "inputs with small prime factors in front (3pq, 2*3^2*1009*pq, 7p)",
+ ("C10","r3m1"): "large transforms 2^10..2^14 with closed-form products at the packing-class boundaries (also caught by C20's dispatch contract); exposed the Karatsuba carry defect",
+ ("C12","r3m4"): "one 300-bit SIQS family in the quick tier (A above 2^127)",
+ ("C13","r3m4"): "factor base above 2^16 primes; reports chosen where a prime of index >= 65536 divides",
+ ("C16","r3m3"): "batches of 4000 semiprimes of 30..44 bits through rho()/rho64()",
 }
 rows = []
 for f in sorted(glob.glob(os.path.join(os.path.dirname(__file__), "..", "seeded", "*", "*", "meta.json"))):
